@@ -278,6 +278,8 @@ def run(scn):
             # how many prompt-setting attempts the client has typed so far (whoever ended up reading them)
             typed = bytes(r.pty.in_log) + bytes(r.pty.discard_log)
             nset = typed.count(b"PS1='[PEXPECT]") + typed.count(b"set prompt='[PEXPECT]")
+            gaps_ = [b_ - a_ for a_, b_ in zip(set_times, set_times[1:])]
+            d.update(fallback_typed_after_s=(min(gaps_) / 1e6 if gaps_ else None))
             d.update(script=[s['k'] for s in scn.get('script', [])], opts=scn.get('opts'), flavour=flavour,
                      session_echo=scn.get('session_echo', True),
                      prompt_setting_commands_received=nset, server_state=tr['state'],
@@ -293,6 +295,15 @@ def run(scn):
             sup_results.append(bool(res_))
             return res_
         s.set_unique_prompt = sup_recorded
+        set_times = []        # when the client typed each prompt-setting attempt
+        sl_orig = s.sendline
+
+        def sendline_recorded(line='', *a, **kw):
+            t_ = line if isinstance(line, str) else bytes(line).decode('latin-1')
+            if t_.startswith("PS1='[PEXPECT]") or t_.startswith("set prompt='[PEXPECT]"):
+                set_times.append(w.now)
+            return sl_orig(line, *a, **kw)
+        s.sendline = sendline_recorded
         w.begin_op(0)
         w.note('op', (0, 'login'))
         opts = dict(scn.get('opts', {}))
